@@ -59,7 +59,9 @@ func (rt *runtime) cmplEvaluateNodeStatement(node nodeStatement) Value {
 		return emptyValue
 
 	case *nodeExpressionStatement:
-		return rt.cmplEvaluateNodeExpression(node.expression)
+		// 12.4: the value of the statement is GetValue of the expression, taken here and now
+		// (a reference kept for later would be dereferenced, or never, after the fact)
+		return rt.cmplEvaluateNodeExpression(node.expression).resolve()
 
 	case *nodeForInStatement:
 		return rt.cmplEvaluateNodeForInStatement(node)
